@@ -95,7 +95,7 @@ def read_notify_user_auth(data):
 def write_notiy_user(method, allowed_max_bandwidth=None,
                      wants_tables_notification=None, exception=None):
     """Encodes and returns a NUS ('Notify User') response."""
-    if not exception:
+    if exception is None:
         return join(str(method),
                     'D', enc_double(allowed_max_bandwidth),
                     'B', enc_bool(wants_tables_notification))
@@ -114,7 +114,7 @@ def read_notify_new_session(data):
 def write_notify_new_session(exception=None):
     """Encodes and returns a NNS ('Notify User') response."""
     method = str(Method.NNS)
-    if not exception:
+    if exception is None:
         return join(method, "V")
     return _handle_exception(exception, join(method, "E"), CreditsError,
                              NotificationError)
@@ -129,7 +129,7 @@ def read_notifiy_session_close(data):
 def write_notify_session_close(exception=None):
     """Encodes and returns a NSC ('Notify Session Close') response."""
     method = str(Method.NSC)
-    if not exception:
+    if exception is None:
         return join(method, "V")
     return _handle_exception(exception, join(method, "E"), NotificationError)
 
@@ -145,7 +145,7 @@ def read_get_items(data):
 def write_get_items(items=None, exception=None):
     """Encodes and returns a GIS ('Get Items') response."""
     method = str(Method.GIS)
-    if exception:
+    if exception is not None:
         return _handle_exception(exception, join(method, 'E'),
                                  ItemsError)
     if items:
@@ -168,7 +168,7 @@ def read_get_schema(data):
 def write_get_schema(fields=None, exception=None):
     """Encodes and returns a GSC ('Get Items') response."""
     method = str(Method.GSC)
-    if exception:
+    if exception is not None:
         return _handle_exception(exception, join(method, 'E'),
                                  ItemsError, SchemaError)
     if fields:
@@ -189,7 +189,7 @@ def read_get_item_data(data):
 def write_get_item_data(items_data=None, exception=None):
     """Encodes and returns a GIT ('Get Item Data') response."""
     method = str(Method.GIT.name)
-    if not exception:
+    if exception is None:
         if items_data:
             encoded_items = [join('I', enc_int(data["distinctSnapshotLength"]),
                                   'D', enc_double(data["minSourceFrequency"]),
@@ -211,7 +211,7 @@ def read_get_user_item_data(data):
 def write_get_user_item_data(items_data=None, exception=None):
     """Encodes and returns a GUI ('Get User Item Data') response."""
     method = str(Method.GUI)
-    if not exception:
+    if exception is None:
         if items_data:
             encoded_items = [join('I', enc_int(data["allowedBufferSize"]),
                                   'D', enc_double(data["allowedMaxFrequency"]),
@@ -235,7 +235,7 @@ def read_notify_user_message(data):
 def write_notify_user_message(exception=None):
     """Encodes and returns a NUM ('Notify User Message') response."""
     method = str(Method.NUM)
-    if not exception:
+    if exception is None:
         return join(method, "V")
     return _handle_exception(exception, join(method, "E"), CreditsError,
                              NotificationError)
@@ -275,7 +275,7 @@ def read_notify_new_tables(data):
 def write_notify_new_tables(exception=None):
     """Encodes and returns a NNT ('Notify New Table') response."""
     method = str(Method.NNT)
-    if not exception:
+    if exception is None:
         return join(method, "V")
     return _handle_exception(exception, join(method, "E"), CreditsError,
                              NotificationError)
@@ -291,7 +291,7 @@ def read_notify_tables_close(data):
 def write_notify_tables_close(exception=None):
     """Encodes and returns a NTC ('Notify Table Close') response."""
     method = str(Method.NTC)
-    if not exception:
+    if exception is None:
         return join(method, "V")
     return _handle_exception(exception, join(method, "E"), NotificationError)
 
@@ -317,7 +317,7 @@ def read_notify_device_access(data):
 def write_notify_device_acces(exception=None):
     """Encodes and returns a MDA ('Notify MPN Device Access') response."""
     method = str(Method.MDA)
-    if not exception:
+    if exception is None:
         return join(method, "V")
     return _handle_exception(exception, join(method, "E"), CreditsError,
                              NotificationError)
@@ -349,7 +349,7 @@ def write_subscription_activation(exception=None):
     response.
     """
     method = str(Method.MSA)
-    if not exception:
+    if exception is None:
         return join(method, "V")
     return _handle_exception(exception, join(method, "E"), CreditsError,
                              NotificationError)
@@ -369,7 +369,7 @@ def write_device_token_change(exception=None):
     """Reads and parses a MDC ('Notify MPN Subscription Activation') request.
     """
     method = str(Method.MDC)
-    if not exception:
+    if exception is None:
         return join(method, "V")
     return _handle_exception(exception, join(method, "E"), CreditsError,
                              NotificationError)
